@@ -27,50 +27,72 @@ private def S (s : String) : Str := s.toList
 
 theorem C12_git_commit_argv (m : Str) :
     argv (tmplOf "git" "commit") [(S "message", m)] = .ok [S "git", S "commit", S "--message", m] := by
-  sorry
+  have h : shlexSplit (tmplOf "git" "commit") = some [S "git", S "commit", S "--message", S "{message}"] := by decide +kernel
+  simp only [argv, h, mapFormat, S]
+  simp [pyFormat, fmtGo, lookup, simpleName, isAlnum, isAlpha, isLower, isUpper, isDigit, Except.map]
 
 theorem C12_git_tag_argv (t m : Str) :
     argv (tmplOf "git" "tag") [(S "tag", t), (S "message", m)]
       = .ok [S "git", S "tag", S "--annotate", t, S "--message", m] := by
-  sorry
+  have h : shlexSplit (tmplOf "git" "tag") = some [S "git", S "tag", S "--annotate", S "{tag}", S "--message", S "{message}"] := by decide +kernel
+  simp only [argv, h, mapFormat, S]
+  simp [pyFormat, fmtGo, lookup, simpleName, isAlnum, isAlpha, isLower, isUpper, isDigit, Except.map]
 
 theorem C12_git_tag_light_argv (t : Str) :
     argv (tmplOf "git" "tag_light") [(S "tag", t)] = .ok [S "git", S "tag", t] := by
-  sorry
+  have h : shlexSplit (tmplOf "git" "tag_light") = some [S "git", S "tag", S "{tag}"] := by decide +kernel
+  simp only [argv, h, mapFormat, S]
+  simp [pyFormat, fmtGo, lookup, simpleName, isAlnum, isAlpha, isLower, isUpper, isDigit, Except.map]
 
 theorem C12_git_add_argv (p : Str) :
     argv (tmplOf "git" "add_path") [(S "path", p)] = .ok [S "git", S "add", S "--update", p] := by
-  sorry
+  have h : shlexSplit (tmplOf "git" "add_path") = some [S "git", S "add", S "--update", S "{path}"] := by decide +kernel
+  simp only [argv, h, mapFormat, S]
+  simp [pyFormat, fmtGo, lookup, simpleName, isAlnum, isAlpha, isLower, isUpper, isDigit, Except.map]
 
 theorem C12_git_push_tag_argv (r t : Str) :
     argv (tmplOf "git" "push_tag") [(S "tag", t), (S "remote", r)]
       = .ok [S "git", S "push", r, S "--follow-tags", t, S "HEAD"] := by
-  sorry
+  have h : shlexSplit (tmplOf "git" "push_tag") = some [S "git", S "push", S "{remote}", S "--follow-tags", S "{tag}", S "HEAD"] := by decide +kernel
+  simp only [argv, h, mapFormat, S]
+  simp [pyFormat, fmtGo, lookup, simpleName, isAlnum, isAlpha, isLower, isUpper, isDigit, Except.map]
 
 theorem C12_git_push_argv (r : Str) :
     argv (tmplOf "git" "push") [(S "remote", r)] = .ok [S "git", S "push", r, S "HEAD"] := by
-  sorry
+  have h : shlexSplit (tmplOf "git" "push") = some [S "git", S "push", S "{remote}", S "HEAD"] := by decide +kernel
+  simp only [argv, h, mapFormat, S]
+  simp [pyFormat, fmtGo, lookup, simpleName, isAlnum, isAlpha, isLower, isUpper, isDigit, Except.map]
 
 theorem C12_hg_commit_argv (p : Str) :
     argv (tmplOf "hg" "commit") [(S "path", p)] = .ok [S "hg", S "commit", S "--logfile", p] := by
-  sorry
+  have h : shlexSplit (tmplOf "hg" "commit") = some [S "hg", S "commit", S "--logfile", S "{path}"] := by decide +kernel
+  simp only [argv, h, mapFormat, S]
+  simp [pyFormat, fmtGo, lookup, simpleName, isAlnum, isAlpha, isLower, isUpper, isDigit, Except.map]
 
 theorem C12_hg_tag_argv (t m : Str) :
     argv (tmplOf "hg" "tag") [(S "tag", t), (S "message", m)]
       = .ok [S "hg", S "tag", t, S "--message", m] := by
-  sorry
+  have h : shlexSplit (tmplOf "hg" "tag") = some [S "hg", S "tag", S "{tag}", S "--message", S "{message}"] := by decide +kernel
+  simp only [argv, h, mapFormat, S]
+  simp [pyFormat, fmtGo, lookup, simpleName, isAlnum, isAlpha, isLower, isUpper, isDigit, Except.map]
 
 theorem C12_hg_tag_light_argv (t : Str) :
     argv (tmplOf "hg" "tag_light") [(S "tag", t)] = .ok [S "hg", S "tag", t] := by
-  sorry
+  have h : shlexSplit (tmplOf "hg" "tag_light") = some [S "hg", S "tag", S "{tag}"] := by decide +kernel
+  simp only [argv, h, mapFormat, S]
+  simp [pyFormat, fmtGo, lookup, simpleName, isAlnum, isAlpha, isLower, isUpper, isDigit, Except.map]
 
 theorem C12_hg_add_argv (p : Str) :
     argv (tmplOf "hg" "add_path") [(S "path", p)] = .ok [S "hg", S "add", p] := by
-  sorry
+  have h : shlexSplit (tmplOf "hg" "add_path") = some [S "hg", S "add", S "{path}"] := by decide +kernel
+  simp only [argv, h, mapFormat, S]
+  simp [pyFormat, fmtGo, lookup, simpleName, isAlnum, isAlpha, isLower, isUpper, isDigit, Except.map]
 
 theorem C12_hg_push_tag_argv (t : Str) :
     argv (tmplOf "hg" "push_tag") [(S "tag", t), (S "remote", [])] = .ok [S "hg", S "push", t] := by
-  sorry
+  have h : shlexSplit (tmplOf "hg" "push_tag") = some [S "hg", S "push", S "{tag}"] := by decide +kernel
+  simp only [argv, h, mapFormat, S]
+  simp [pyFormat, fmtGo, lookup, simpleName, isAlnum, isAlpha, isLower, isUpper, isDigit, Except.map]
 
 /-! ### the general statement over the whole generated table -/
 
@@ -90,7 +112,7 @@ theorem C12_table_shape :
       match shlexSplit ct.2 with
       | some toks => toks.all tokOk
       | none => false)) = true := by
-  sorry
+  decide +kernel
 
 /-- the value substituted for a token -/
 def tokValue (kw : List (Str × Str)) (tok : Str) : Str :=
@@ -98,13 +120,56 @@ def tokValue (kw : List (Str × Str)) (tok : Str) : Str :=
   | some k => (lookup k kw).getD []
   | none => (pyFormat [] tok).toOption.getD []
 
+/-! glue: what `slotName` / `tokOk` say about a token (generic lemmas: Proofs/VcsLemmas.lean) -/
+
+private theorem slotName_spec {tok k : Str} (h : slotName tok = some k) :
+    tok = '{' :: k ++ ['}'] ∧ simpleName k = true := by
+  unfold slotName at h
+  split at h
+  · rename_i rest
+    split at h
+    · rename_i hc
+      simp only [Bool.and_eq_true, beq_iff_eq] at hc
+      cases h
+      exact ⟨by rw [List.dropLast_append_getLast? _ hc.1], hc.2⟩
+    · cases h
+  · cases h
+
+private theorem pyFormat_tok (kw : List (Str × Str)) (tok : Str) (hok : tokOk tok = true)
+    (hkeys : ∀ k, slotName tok = some k → (lookup k kw).isSome = true) :
+    pyFormat kw tok = .ok (tokValue kw tok) := by
+  unfold tokValue
+  cases hsl : slotName tok with
+  | some k =>
+    obtain ⟨rfl, hs⟩ := slotName_spec hsl
+    obtain ⟨v, hv⟩ := Option.isSome_iff_exists.1 (hkeys k hsl)
+    simp only [hv, Option.getD_some]
+    exact pyFormat_slot kw hs hv
+  | none =>
+    simp only [tokOk, hsl, Option.isSome_none, Bool.false_or] at hok
+    cases hf : pyFormat [] tok with
+    | error e => simp [hf, Except.toOption] at hok
+    | ok r => simpa [Except.toOption] using pyFormat_static kw hf
+
+private theorem mapFormat_toks (kw : List (Str × Str)) (toks : List Str)
+    (hok : toks.all tokOk = true)
+    (hkeys : ∀ t ∈ toks, ∀ k, slotName t = some k → (lookup k kw).isSome = true) :
+    mapFormat kw toks = .ok (toks.map (tokValue kw)) := by
+  induction toks with
+  | nil => rfl
+  | cons t ts ih =>
+    simp only [List.all_cons, Bool.and_eq_true] at hok
+    simp only [mapFormat, pyFormat_tok kw t hok.1 (hkeys t (by simp)),
+      ih hok.2 (fun t' ht' => hkeys t' (by simp [ht'])), Except.map, List.map_cons]
+
 /-- for ANY template with that shape and ANY values: argv is the token list with each slot
     replaced by its value — one value, one argument, nothing added, removed or altered -/
 theorem C12_single_argument (tmpl : Str) (toks : List Str) (kw : List (Str × Str))
     (hs : shlexSplit tmpl = some toks) (hok : toks.all tokOk = true)
     (hkeys : ∀ t ∈ toks, ∀ k, slotName t = some k → (lookup k kw).isSome = true) :
     argv tmpl kw = .ok (toks.map (tokValue kw)) := by
-  sorry
+  simp only [argv, hs]
+  exact mapFormat_toks kw toks hok hkeys
 
 /-! ### message rendering: templates with the documented placeholders -/
 
@@ -125,12 +190,45 @@ def Piece.value (kw : List (Str × Str)) : Piece → Str
   | .txt s => s
   | .ph k => (lookup k kw).getD []
 
+private theorem Except_map_map {ε α β γ} (f : α → β) (g : β → γ) (x : Except ε α) :
+    (x.map f).map g = x.map (fun a => g (f a)) := by
+  cases x <;> rfl
+
+private theorem fmtGo_escBraces (kw : List (Str × Str)) (s rest : Str) :
+    fmtGo kw .text (escBraces s ++ rest) = (fmtGo kw .text rest).map (s ++ ·) := by
+  induction s with
+  | nil => cases fmtGo kw .text rest <;> rfl
+  | cons c s ih =>
+    unfold escBraces
+    split
+    · rename_i hc; simp only [beq_iff_eq] at hc; subst hc
+      rw [List.cons_append, List.cons_append, fmtGo_text_lbrace2, ih, Except_map_map]; rfl
+    · split
+      · rename_i hc; simp only [beq_iff_eq] at hc; subst hc
+        rw [List.cons_append, List.cons_append, fmtGo_text_rbrace2, ih, Except_map_map]; rfl
+      · rename_i h1 h2
+        simp only [beq_iff_eq] at h1 h2
+        rw [List.cons_append, fmtGo_text_plain kw _ h1 h2, ih, Except_map_map]; rfl
+
 /-- `template.format(**kwargs)` is the template with each placeholder replaced by its value,
     in one pass (values are never re-interpreted, whatever braces they contain) -/
 theorem C12_message_render (ps : List Piece) (kw : List (Str × Str))
     (hk : ∀ p ∈ ps, ∀ k, p = .ph k → simpleName k = true ∧ (lookup k kw).isSome = true) :
     pyFormat kw (ps.flatMap Piece.render) = .ok (ps.flatMap (Piece.value kw)) := by
-  sorry
+  unfold pyFormat
+  induction ps with
+  | nil => rfl
+  | cons p ps ih =>
+    have ih' := ih (fun p' hp' => hk p' (by simp [hp']))
+    rw [List.flatMap_cons, List.flatMap_cons]
+    cases p with
+    | txt s => rw [Piece.render, fmtGo_escBraces, ih']; rfl
+    | ph k =>
+      obtain ⟨hs, hl⟩ := hk (.ph k) (by simp) k rfl
+      obtain ⟨v, hv⟩ := Option.isSome_iff_exists.1 hl
+      rw [Piece.render, List.cons_append, List.append_assoc, List.singleton_append,
+        fmtGo_slot kw _ hs hv, ih']
+      simp [Piece.value, hv, Except.map]
 
 /-- the rendered message then travels as one argument (composition with `C12_git_commit_argv`) -/
 theorem C12_commit_message_end_to_end (ps : List Piece) (kw : List (Str × Str))
@@ -138,7 +236,8 @@ theorem C12_commit_message_end_to_end (ps : List Piece) (kw : List (Str × Str))
     (pyFormat kw (ps.flatMap Piece.render)).toOption.map
         (fun m => argv (tmplOf "git" "commit") [(S "message", m)])
       = some (.ok [S "git", S "commit", S "--message", ps.flatMap (Piece.value kw)]) := by
-  sorry
+  rw [C12_message_render ps kw hk]
+  simp only [Except.toOption, Option.map_some, C12_git_commit_argv]
 
 /-! ### the defect that was repaired (DESIGN.md D10): format-then-split let values alter argv -/
 
